@@ -3881,6 +3881,8 @@ impl QueryRouter {
 
     #[allow(clippy::unused_self)] // Method signature for API consistency
     fn expr_to_property_value(&self, expr: &Expr) -> Result<PropertyValue> {
+        let folded = Self::fold_neg(expr);
+        let expr = &*folded;
         match &expr.kind {
             ExprKind::Literal(lit) => match lit {
                 Literal::Null => Ok(PropertyValue::Null),
@@ -5889,6 +5891,8 @@ impl QueryRouter {
     ///
     /// Returns an error if the expression cannot be converted to a filter value.
     pub fn expr_to_filter_value(&self, expr: &Expr) -> Result<FilterValue> {
+        let folded = Self::fold_neg(expr);
+        let expr = &*folded;
         match &expr.kind {
             ExprKind::Literal(lit) => match lit {
                 Literal::Null => Ok(FilterValue::String("null".to_string())),
@@ -5905,8 +5909,35 @@ impl QueryRouter {
         }
     }
 
+    /// Folds a unary minus applied to a numeric literal (`-1`, `-2.5`) into the literal it denotes,
+    /// so that negative numbers written in query text reach the engines like any other literal.
+    fn fold_neg(expr: &Expr) -> std::borrow::Cow<'_, Expr> {
+        if let ExprKind::Unary(parser::UnaryOp::Neg, inner) = &expr.kind {
+            match &inner.kind {
+                ExprKind::Literal(Literal::Integer(i)) => {
+                    if let Some(n) = i.checked_neg() {
+                        return std::borrow::Cow::Owned(Expr::new(
+                            ExprKind::Literal(Literal::Integer(n)),
+                            expr.span,
+                        ));
+                    }
+                },
+                ExprKind::Literal(Literal::Float(f)) => {
+                    return std::borrow::Cow::Owned(Expr::new(
+                        ExprKind::Literal(Literal::Float(-f)),
+                        expr.span,
+                    ));
+                },
+                _ => {},
+            }
+        }
+        std::borrow::Cow::Borrowed(expr)
+    }
+
     #[allow(clippy::unused_self)] // Method signature for API consistency
     fn expr_to_value(&self, expr: &Expr) -> Result<Value> {
+        let folded = Self::fold_neg(expr);
+        let expr = &*folded;
         match &expr.kind {
             ExprKind::Literal(lit) => match lit {
                 Literal::Null => Ok(Value::Null),
@@ -5954,6 +5985,8 @@ impl QueryRouter {
     #[allow(clippy::cast_possible_truncation)] // Truncation acceptable for f32 conversion
     #[allow(clippy::cast_precision_loss)] // Precision loss acceptable for numeric conversion
     fn expr_to_f32(&self, expr: &Expr) -> Result<f32> {
+        let folded = Self::fold_neg(expr);
+        let expr = &*folded;
         match &expr.kind {
             ExprKind::Literal(Literal::Float(f)) => Ok(*f as f32),
             ExprKind::Literal(Literal::Integer(i)) => Ok(*i as f32),
@@ -5964,6 +5997,8 @@ impl QueryRouter {
     #[allow(clippy::unused_self)] // Method signature for API consistency
     #[allow(clippy::cast_precision_loss)] // Precision loss acceptable for numeric conversion
     fn expr_to_f64(&self, expr: &Expr) -> Result<f64> {
+        let folded = Self::fold_neg(expr);
+        let expr = &*folded;
         match &expr.kind {
             ExprKind::Literal(Literal::Float(f)) => Ok(*f),
             ExprKind::Literal(Literal::Integer(i)) => Ok(*i as f64),
@@ -6070,7 +6105,7 @@ impl QueryRouter {
     fn properties_to_map(&self, properties: &[Property]) -> Result<HashMap<String, PropertyValue>> {
         let mut map = HashMap::new();
         for prop in properties {
-            let value = match &prop.value.kind {
+            let value = match &Self::fold_neg(&prop.value).kind {
                 ExprKind::Literal(Literal::Null) => PropertyValue::Null,
                 ExprKind::Literal(Literal::Boolean(b)) => PropertyValue::Bool(*b),
                 ExprKind::Literal(Literal::Integer(i)) => PropertyValue::Int(*i),
